@@ -151,10 +151,57 @@ func c03Extras(cc *CheckCtx) {
 		fmt.Sprintf("the %d functions reachable from the %d printing entry points read %d package-level variables (%s), none written after initialisation; mutable ones: %v", len(fns), len(roots), len(gs), strings.Join(names, ", "), mutable), "")
 	cc.audit("printer-ranges-over-no-map", len(mapRanges) == 0, fmt.Sprintf("no map iteration (whose order varies between runs) in the printer; found: %v", mapRanges), "")
 	cc.audit("printer-calls-no-clock-or-random", len(clocks) == 0, fmt.Sprintf("no time / random / os function is reachable from the printer; found: %v", clocks), "")
+	// the parser and the lexer keep no state between inputs: the only package-level variables they can read that are
+	// written after initialisation are the token tables of package token (interning returns a token with the same
+	// type and literal whatever the table holds: InternToken / Intern / LookupIdent contracts, C16)
+	{
+		var proots []*ssa.Function
+		for _, f := range p.allFuncs("parser", "lexer") {
+			if f.Parent() == nil && !strings.HasPrefix(f.Name(), "init") && !strings.HasPrefix(f.Name(), "lemma") {
+				proots = append(proots, f)
+			}
+		}
+		preach := p.reachableFrom(proots)
+		var pf []*ssa.Function
+		for f := range preach {
+			if p.inRepo(f) {
+				pf = append(pf, f)
+			}
+		}
+		sort.Slice(pf, func(i, j int) bool { return funcKey(pf[i]) < funcKey(pf[j]) })
+		seenG := map[*ssa.Global]bool{}
+		var stateful, allowed []string
+		for _, f := range pf {
+			for _, b := range f.Blocks {
+				for _, ins := range b.Instrs {
+					for _, op := range ins.Operands(nil) {
+						g, ok := (*op).(*ssa.Global)
+						if !ok || seenG[g] || !strings.HasPrefix(g.Pkg.Pkg.Path(), "grol.io/grol") {
+							continue
+						}
+						seenG[g] = true
+						ws := p.writersOfGlobalOutsideInit(g)
+						if len(ws) == 0 {
+							continue
+						}
+						if g.Pkg.Pkg.Path() == "grol.io/grol/token" {
+							allowed = append(allowed, "token."+g.Name())
+							continue
+						}
+						stateful = append(stateful, g.Pkg.Pkg.Name()+"."+g.Name()+" written by "+strings.Join(ws, ", "))
+					}
+				}
+			}
+		}
+		sort.Strings(allowed)
+		sort.Strings(stateful)
+		cc.audit("parser-keeps-no-state", len(stateful) == 0 && len(proots) > 20,
+			fmt.Sprintf("the %d functions reachable from the lexer and the parser use no package-level variable that is written after initialisation, apart from the token tables (%s); stateful: %v", len(pf), strings.Join(allowed, ", "), stateful), "")
+	}
 	cc.runBounded(BoundedSpec{Name: "format-fixpoint", PkgDir: "repl", File: "c02_format_test.go", Test: "TestVerifBoundedFixpoint", TimeoutS: 300,
 		Contract: "formatting the formatter's output returns it unchanged (both modes), two rounds in one process give the same bytes, normal-mode output ends with exactly one newline"})
 	cc.Assume = append(cc.Assume,
 		"C03: token literals are immutable strings (tokens are interned once); fmt / strings / strconv are deterministic",
 		"C03: the fixpoint itself is decided only on the bounded corpus (same corpus as C02)",
-		"C03: 'in any process': the determinism audit covers everything the printer can read; the parser's determinism is not audited")
+		"C03: 'in any process and after any other inputs': the audits cover every package-level variable the printer, the parser and the lexer can reach; the token tables are excepted on the strength of the interning contracts (C16)")
 }
